@@ -127,6 +127,10 @@ O('recorddiff', 2, lambda e, s, kw: e.recorddiff(s[0], s[1], **kw),
 O('duplicates', 1, lambda e, s, kw: e.duplicates(s[0], 'a', **kw), key='a')
 O('duplicates-nokey', 1, lambda e, s, kw: e.duplicates(s[0], **kw), key=None,
   rect=True)
+# (the key given as field index 0, which is falsy)
+O('distinct-key0', 1, lambda e, s, kw: e.distinct(s[0], 0, **kw), key='a')
+O('groupselectfirst-key0', 1,
+  lambda e, s, kw: e.groupselectfirst(s[0], 0, **kw), key='a')
 O('unique', 1, lambda e, s, kw: e.unique(s[0], 'a', **kw), key='a')
 O('distinct', 1, lambda e, s, kw: e.distinct(s[0], 'a', **kw), key='a')
 O('distinct-count', 1, lambda e, s, kw: e.distinct(s[0], count='n', **kw),
